@@ -410,13 +410,23 @@ pub fn uncuttable(rng: &mut Rng) -> (String, &'static str) {
             }
         }
     }
-    match rng.below(8) {
+    match rng.below(9) {
         6 => {
             // a `rec` whose body is its own variable (directly, parenthesised, through another rec, through an
             // alternative of itself): a plain alias cycle, nothing to cut at
             let body = *rng.pick(&["r", "(r)", "(rec s r)", "((r))", "r | r", "(rec s (s | r))"]);
             let place = *rng.pick(&["let a = rec r BODY;\nres / on get -> <a>;", "res / on get -> <rec r BODY>;", "let f x = rec r BODY;\nres / on get -> <f {}>;", "let a = { 'p rec r BODY };\nres / on get -> <a>;"]);
             (place.replace("BODY", body), "rec-alias")
+        }
+        8 => {
+            // alias cycles through `@` declarations: a reference name does not make an alias a schema
+            let t = *rng.pick(&[
+                "let @a = @b;\nlet @b = @a;\nres / on get -> <@a>;",
+                "let @a = @a;\nres / on get -> <@a>;",
+                "let @a = b;\nlet b = @a;\nres / on get -> <b>;",
+                "let @a = (@b);\nlet @b = c;\nlet c = @a;\nres / on get -> <c>;",
+            ]);
+            (t.to_owned(), "reference-alias-cycle")
         }
         7 => {
             // a function-valued or content-valued recursion variable
